@@ -577,6 +577,13 @@ func c14Run(c *core.Ctx) *core.Result {
 		// which is then resolved again inside the root); where that lands is
 		// not modelled here, (a) and (b) still apply
 		r.Count("landing_skipped_wildcard_onto_non_directory", 1)
+	case isPattern && R.Links > 0:
+		// the destination argument goes through a symlink and is resolved
+		// again for every match: a match that lands on that very link
+		// (dst "x/l/" with l -> ".." makes x the directory and x/l the landing
+		// of a match called l) replaces it, and the later matches follow the
+		// new link - inside the root, but not below the first resolution
+		r.Count("landing_skipped_wildcard_dst_through_symlink", 1)
 	default:
 		region, regionKnown = R.Path, true
 	}
